@@ -23,6 +23,24 @@ def to_smt2(hyps, pc, goal):
     return s.to_smt2()
 
 
+def assertions_to_smt2(asserts):
+    s = z3.Solver()
+    for a in asserts:
+        s.add(a)
+    return s.to_smt2()
+
+
+def vc_texts(hyps, pc, goal, extra_terms=()):
+    """(primary text, fallback text or None): the ground (quantifier-free) query first, the full query second."""
+    from . import quant
+    qf, full = quant.prepare(hyps, pc, goal, extra_terms)
+    if qf is None:
+        return assertions_to_smt2(full), None
+    if full is None:
+        return assertions_to_smt2(qf), None
+    return assertions_to_smt2(qf), assertions_to_smt2(full)
+
+
 def _kill(p):
     try:
         p.kill()
@@ -97,7 +115,23 @@ def race(text, timeout, solvers=("z3-5.1.0", "cvc5-1.0", "z3-4.8.12"), need=1):
 
 def solve_text(args):
     """Worker entry: (name, smt2 text, quick timeout, full timeout, crosscheck) -> result dict."""
-    name, text, t_quick, t_full, cross = args
+    name, text, t_quick, t_full, cross = args[:5]
+    fallback = args[5] if len(args) > 5 else None
+    out = _solve_one(name, text, t_quick, t_full, cross)
+    out["query"] = "ground" if fallback else "direct"
+    if fallback and out["status"] != "unsat":
+        first = out
+        out = _solve_one(name, fallback, t_quick, t_full, cross)
+        out["query"] = "full(quantified)"
+        out["ground_status"] = first["status"]
+        out["ms"] += first["ms"]
+        if out["status"] not in ("unsat",) and first["status"] == "sat":
+            # keep the ground model's verdict: it is the replay candidate
+            out["status"] = "sat" if out["status"] in ("sat", "unknown", "timeout", "error") else out["status"]
+    return out
+
+
+def _solve_one(name, text, t_quick, t_full, cross):
     t0 = time.time()
     out = {"name": name, "status": "unknown", "solver": None, "ms": 0, "cross": None, "detail": ""}
     try:
